@@ -98,8 +98,15 @@ def check_model(p, m, route, case, label, order=None):
     p['outcomes'][f'{label}/{route}/{kind}'] += 1
     if prob is not None:
         obs = texts[-1] if texts else None
-        p['violations'].append(violation(PID, kind, dict(case, route=route), observed=obs if isinstance(obs, list) else (obs or '')[:1500],
-                                         detail=prob))
+        if kind == 'content-changed' and isinstance(obs, list) and len(obs) > 1:
+            # one violation per differing item: an element may combine several independent causes (a falsy default *and* a
+            # multi-line note), and each recorded finding explains items of its own shape only
+            for item in obs:
+                p['violations'].append(violation(PID, kind, dict(case, route=route, item=item[0]), observed=[item],
+                                                 detail=f'content changed by render+parse: {item[0]}: {item[1]!r} != {item[2]!r}'))
+        else:
+            p['violations'].append(violation(PID, kind, dict(case, route=route), observed=obs if isinstance(obs, list) else (obs or '')[:1500],
+                                             detail=prob))
     return kind
 
 
